@@ -68,6 +68,8 @@ func main() {
 		cpu1(*seed, *n, *tier)
 	case "dump":
 		dumpStream(*seed, *n)
+	case "load":
+		loadStream(*seed, *n, *tier)
 	case "cpuruns":
 		cpuRuns(*seed, *n)
 	case "mem04", "mem05", "mem06", "mem07":
